@@ -265,8 +265,33 @@ def hex_cases(draw):
     return {'seq': seq, 'via': 'from_hex', 'text': text}
 
 
+SEPS = ['+', '.', '|', '*', '?', '(', ')', '[', ']', '\\', '^', '$', '{', '}', '-', ':', ', ', '::', '+-', '.*', '[:]', 'x', 'zz']
+
+
+def run_hex_sep(case):
+    """from_hex(text, sep=S): the separator is a literal string; the verdict is that of the byte list."""
+    seq, sep = case['seq'], case['sep']
+    text = sep.join(f'{b:02X}' for b in seq)
+    well = R.ref_is_single_message(seq)
+    try:
+        r = mido.Message.from_hex(text, sep=sep)
+    except ValueError as exc:
+        if well:
+            return [fail('rejects-wellformed', f'from_hex({text!r}, sep={sep!r}): {exc!r}', status=_st(seq))]
+        return []
+    except Exception as exc:  # noqa: BLE001
+        return [fail('wrong-exception', f'from_hex({text!r}, sep={sep!r}): {exc!r}', exc=exc_sig(exc))]
+    if not well:
+        return [fail('accepts-malformed', f'from_hex({text!r}, sep={sep!r}) -> {r!r}', status=_st(seq), n=min(len(seq), 5))]
+    if r.bytes() != list(seq):
+        return [fail('bytes-differ', f'from_hex({text!r}, sep={sep!r}) -> {r!r} with bytes {r.bytes()}', status=_st(seq))]
+    return []
+
+
 def run_hex(case):
     """from_hex: malformed text -> ValueError; otherwise same verdict as the byte list."""
+    if case.get('sep') is not None:
+        return run_hex_sep(case)
     if case['seq'] is None:
         try:
             r = mido.Message.from_hex(case['text'])
@@ -297,6 +322,11 @@ def main(ctx):
         ctx.pmap('enum_quick', [('len012', a) for a in [-1] + list(range(256))] +
                  [('len3', a) for a in B48] + [('len456', a) for a in B12])
         ctx.exhaustive = False
+    # from_hex with an explicit separator, regex-special characters included: valid and invalid encodings
+    for sep in SEPS:
+        for seq in ([0x90, 0x3C, 0x40], [0xF8], [0xF0, 1, 2, 0xF7], [0xF0, 0xF7], [0xE0, 0, 0x40], [0x90, 0x3C],
+                    [0x90, 0x3C, 0x40, 0], [0x3C, 0x40], [0xF0, 1, 2], [0x90, 0x80, 0], []):
+            ctx.check({'seq': seq, 'via': 'from_hex', 'sep': sep, 'text': None}, classes=('hex-sep',), sample=False)
     n = 3000 if ctx.tier == 'quick' else 60000
     ctx.hyp(mutated(), n, label='mutated')
     ctx.hyp(hex_cases(), n // 3, label='hex', seed_offset=1)
